@@ -248,6 +248,18 @@ def _run_case(case, rec, mon=None):
         if own:
             monitor.detach_all()
         return
+    if case["idx"] % 9 == 4:
+        # the computer as a worker process gets it: a deep copy or a pickle round trip - a computer of the same configuration
+        from ..common import copied
+
+        way = ("deepcopy", "pickle")[(case["idx"] // 9) % 2]
+        try:
+            c2 = copied(comp, way)
+            compmon.adopt(c2, comp)
+            comp = c2
+            rec.count("computers_used_through_a_%s" % way)
+        except Exception as e:
+            mon.v("copying (%s) an STFT computer raised %r" % (way, e), check="copy_raise")
     fl, fs = comp.frame_length, comp.frame_shift
     if fl < 1 or fs < 1 or (fl > 400 and not case.get("realistic")):
         rec.count("configurations_skipped_geometry")
